@@ -30,6 +30,10 @@ def plan(tier, seed):
     nrand = 2500 if tier == "quick" else 40000
     for p in range(2):
         specs.append(dict(name="random-%d" % p, mode="interp", what="random", n=nrand // 2, seed=[seed, 88, p]))
+    # the same work in an interpreter started with -O (assert statements compiled away)
+    byname = {sp["name"]: sp for sp in specs}
+    if 'random-0' in byname:
+        specs.append(common.under_O(byname['random-0'], **{}))
     return specs
 
 
